@@ -7,11 +7,14 @@ UpperL == <<"A","B","C","D","E","F","G","H","I","J","K","L","M","N","O","P","Q",
 LowerL == <<"a","b","c","d","e","f","g","h","i","j","k","l","m","n","o","p","q","r","s","t","u","v","w","x","y","z">>
 DigitL == <<"0","1","2","3","4","5","6","7","8","9">>
 
-IsUpperC(c) == \E i \in 1 .. 26 : UpperL[i] = c
-IsLowerC(c) == \E i \in 1 .. 26 : LowerL[i] = c
+(* a few non-ASCII simple case pairs (the generators use only these beyond ASCII) *)
+UpperX == UpperL \o <<"É", "Ż", "Ó", "Ł", "Ć">>
+LowerX == LowerL \o <<"é", "ż", "ó", "ł", "ć">>
+IsUpperC(c) == \E i \in 1 .. Len(UpperX) : UpperX[i] = c
+IsLowerC(c) == \E i \in 1 .. Len(LowerX) : LowerX[i] = c
 IsDigitC(c) == \E i \in 1 .. 10 : DigitL[i] = c
-ToLowerC(c) == IF IsUpperC(c) THEN LowerL[CHOOSE i \in 1 .. 26 : UpperL[i] = c] ELSE c
-ToUpperC(c) == IF IsLowerC(c) THEN UpperL[CHOOSE i \in 1 .. 26 : LowerL[i] = c] ELSE c
+ToLowerC(c) == IF IsUpperC(c) THEN LowerX[CHOOSE i \in 1 .. Len(UpperX) : UpperX[i] = c] ELSE c
+ToUpperC(c) == IF IsLowerC(c) THEN UpperX[CHOOSE i \in 1 .. Len(LowerX) : LowerX[i] = c] ELSE c
 LowerSeq(s) == [i \in 1 .. Len(s) |-> ToLowerC(s[i])]
 UpperSeq(s) == [i \in 1 .. Len(s) |-> ToUpperC(s[i])]
 EqCI(a, b) == LowerSeq(a) = LowerSeq(b)
